@@ -1,8 +1,15 @@
 (** * C20 — generate produces a complete, self-consistent file with the requested layout.
-    The file is the per-archive batch update of the point lists generate prints ([generate_cmd]);
-    the constraints on the printed lists themselves (completeness, bounds, coarse = sum of fully
-    covered finer slots) are checked on every run against the real command's output. *)
-From WT Require Import Base.Wrap Base.ListX Model.Time Model.Ring Model.Update Model.Handle Model.Cmd Proofs.CmdProofs.
+    The random choices of the generator are not modelled.  [gen_ok] (Model/Generate.v) states what
+    the property demands of the point lists the generator produces (one point per retained slot
+    up to the generation instant, values in [0, max scaled by the step], coarser value = sum of
+    the finer values where the finer archive retains the whole coarser interval); it is evaluated
+    on the lists the real generator produced, on every run.  Proved here: the file generate leaves
+    behind IS those lists, archive by archive and slot by slot, for every valid layout, every
+    instant of the clock domain and all lists [gen_ok] accepts — so the file is complete, bounded
+    and self-consistent exactly when the lists are. *)
+From WT Require Import Base.Wrap Base.ListX Model.Time Model.Ring Model.Update Spec.LogSpec Spec.WfLayout
+  Model.Handle Model.Cmd Model.Generate
+  Proofs.TimeProofs Proofs.ChainProofs Proofs.HistoryProofs Proofs.CmdProofs Proofs.GenerateProofs Proofs.LayoutBridge.
 
 Theorem C20_refuses_existing F m xff layout pl now : generate_cmd F true m xff layout pl now = (StErr, None).
 Proof. exact (generate_refuses_existing F m xff layout pl now). Qed.
@@ -19,3 +26,49 @@ Theorem C20_nofill_every_slot_empty F m xff layout now h :
              hd_disk h' = create_arcs layout /\ hd_hdr_on_disk h' = true.
 Proof. exact (generate_nofill_empty F m xff layout now h). Qed.
 Print Assumptions C20_nofill_every_slot_empty.
+
+(** the generated file, read back: every archive's whole retention holds exactly the generated
+    list (no empty slot, nothing left over from propagation), under the requested header *)
+Theorem C20_file_is_the_generated_lists F m xff L pl now h0 :
+  1 <= m <= 6 -> wf_layout L -> clock_ok L now ->
+  create m xff L = Some h0 -> gen_complete L now pl = true ->
+  exists h',
+    generate_cmd F false m xff L pl now = (StOk, Some h') /\
+    hd_hdr_on_disk h' = true /\ hd_method h' = m /\ hd_xff h' = xff /\
+    map (fun a => (a_step a, a_n a)) (hd_disk h') = L /\
+    forall i, 0 <= i < llen L ->
+      fetch_from_archive (hd_disk h') i (now - lay_period L i) now now =
+        FSeries (mkSeries (gen_first (lay_step L i) (lay_n L i) now) (gen_last (lay_step L i) now + lay_step L i)
+                   (lay_step L i) (map p_val (znth [] pl i))).
+Proof.
+  intros Hm Hwf. destruct (wf_layout_full_of_wf_layout L Hwf) as [Hfull HL].
+  exact (generate_file_is_lists F m xff L pl now h0 Hm HL Hfull).
+Qed.
+Print Assumptions C20_file_is_the_generated_lists.
+
+(** what [gen_ok] accepts: every value is a number in [0, max * step / step0] ... *)
+Theorem C20_accepted_lists_are_bounded F of_int s0 mx L pl q p :
+  gen_bounded F of_int s0 mx L pl = true -> 0 <= q < llen L -> q < zlen pl -> In p (znth [] pl q) ->
+  is_nan (p_val p) = false /\ f_lt F (p_val p) (f_zero F) = false /\
+  f_lt F (of_int (mx * lay_step L q / s0)) (p_val p) = false.
+Proof.
+  intros H Hq Hql Hin. pose proof (gen_bounded_spec F of_int s0 mx L pl H q p Hq Hql Hin) as Hv.
+  unfold val_ok in Hv. rewrite !andb_true_iff, !negb_true_iff in Hv. tauto.
+Qed.
+Print Assumptions C20_accepted_lists_are_bounded.
+
+(** ... and every coarser value whose finer slots are all retained equals their sum *)
+Theorem C20_accepted_lists_are_sum_consistent F L pl q p vs :
+  gen_sums F None L pl = true -> 1 <= q < llen L -> q < zlen pl -> In p (znth [] pl q) ->
+  finer_vals (znth [] pl (q - 1)) (p_time p) (lay_step L (q - 1)) (Z.to_nat (lay_step L q / lay_step L (q - 1))) = Some vs ->
+  veq (p_val p) (fsum F vs) = true.
+Proof.
+  intros H Hq Hql Hin Hf. pose proof (gen_sums_spec F L pl None H q p Hq Hql Hin) as Hs.
+  unfold slot_sum_ok in Hs. rewrite Hf in Hs. exact Hs.
+Qed.
+Print Assumptions C20_accepted_lists_are_sum_consistent.
+
+(** the premises are satisfiable *)
+Example C20_example : wf_layout [(1, 7); (7, 10)] /\ clock_ok [(1, 7); (7, 10)] 1700000000 /\
+  create 2 0 [(1, 7); (7, 10)] <> None.
+Proof. destruct wf_layout_example as [H1 H2]. split; [exact H1|]. split; [exact H2|]. vm_compute. discriminate. Qed.
